@@ -362,6 +362,15 @@ def install(I, F, stream, mode):
     add(r"parsers::labels::LabelParser::parse_label$", lambda I, a, f: ok(a[1]))
     add(r"library::path::LibraryPath::last$", lambda I, a, f: StrVal([Term("last", repr(deref(a[0]).items[0]))]))
     add(r"library::path::LibraryPath::validate$", lambda I, a, f: ok(Term("num_components", repr(deref(a[0])))))
+
+    def kernel_new(I, a, f):
+        # Kernel::new orders the hashes and rejects duplicates / more than 255: a summary for canonical instances (the
+        # generated hashes are distinct symbols taken as already ordered; writers are only handed constructed values).
+        # Its own panic freedom is covered by C19-R5 / R5b (slicing, unwraps) and the windows(2) indexing is in range.
+        kadt = [x for i, x in F.adts.items() if i.endswith("program::Kernel")]
+        items = list(slice_of(I, a[0]).values())
+        return ok(Agg([Agg([clone_val(deref(x)) for x in items], "vec")], "adt", kadt[0]["id"], kadt[0]["variants"][0]["name"]))
+    add(r"^miden_core::program::Kernel::new$", kernel_new)
     add(r"core::convert::AsRef::as_ref$|@AsRef::as_ref$", lambda I, a, f: (deref(a[0]).items[0] if isinstance(deref(a[0]), Agg) and deref(a[0]).items and isinstance(deref(a[0]).items[0], StrVal) else a[0]))
     add(r"core::str::str::is_empty$|core::str::is_empty$|alloc::string::String::is_empty$", lambda I, a, f: (len(deref(a[0]).b) == 0) if isinstance(deref(a[0]), StrVal) else Term("is_empty", repr(a[0])))
 
